@@ -137,5 +137,13 @@ Definition pl_event_level (p : pl_content) (ty : bytes) (is_state : bool) : Z :=
   | None => if is_state then pl_state_default p else pl_events_default p
   end.
 
+(* an entry of the events map as it stands (absent: events_default), without the special case of
+   m.room.third_party_invite that pl_event_level has for SENDING such an event *)
+Definition pl_event_entry (p : pl_content) (ty : bytes) : Z :=
+  match lookup_z ty (pl_events p) with
+  | Some z => z
+  | None => pl_events_default p
+  end.
+
 Definition pl_notif_level (p : pl_content) (n : bytes) : Z :=
   match lookup_z n (pl_notifs p) with Some z => z | None => 50%Z end.
